@@ -229,7 +229,7 @@ def machine_size(m, cap):
     if m["rand"]:
         for s in range(N):
             mult *= math.factorial(len(av[s]))
-    start = (tuple(m["h"]), frozenset(), (), "idle")
+    start = (tuple(0 if ab[s] else m["h"][s] for s in range(N)), frozenset(), (), "idle")
     seen = {start}
     todo = [start]
     while todo:
@@ -415,28 +415,48 @@ class Recorder:
         return out
 
 
-def real_run(m, rep, *, script=None, seed=0, randomize=False, iterations=3000, listener=True):
-    """Run msdm's LRTDP on the instance; returns a json-able description of everything observable."""
-    from msdm.algorithms.lrtdp import LRTDP
-    rng = random.Random(digest([m["P"], m["R"], rep]))
+def real_run(m, rep, *, script=None, seed=0, randomize=False, iterations=3000, listener=True, warm=None):
+    """Run msdm's LRTDP on the instance; returns a json-able description of everything observable.
+
+    warm: an abstract instance the *same planner object* is first run on (free sampling, result discarded):
+    planner-reuse histories.  Its labels are of the same kind (so they overlap with the instance's) but its
+    absorbing set, dynamics and heuristic are its own; warm = the instance itself plans the same MDP twice.
+    Whatever the planner kept from the first call, the judged run must be that of a fresh planner."""
+    from msdm.algorithms.lrtdp import LRTDP, LRTDPEventListener
     rep = dict(rep)
     if rep["rep"] == "matrices":
         rep["explicit_list"] = True
-    g = m["GN"] / m["GD"]
-    out = {"seed": seed, "randomize": bool(randomize), "rep": rep, "scripted": script is not None}
-    hv = [x / 2 ** m["KB"] for x in m["h"]]
+    out = {"seed": seed, "randomize": bool(randomize), "rep": rep, "scripted": script is not None, "warm": warm is not None}
     margin = m["margin"] if "margin" in m else m["EPS"] / 2 ** m["KB"]
+    cur = {}
+
+    class Listener(LRTDPEventListener):
+        def end_of_lrtdp_trial(self, localvars):
+            cur["rec"].snapshot("eot")
+
+        def end_of_lrtdp_timestep(self, localvars):
+            pass
+
+    def enter(inst, scr):
+        b_ = build.build_mdp(inst, rng=random.Random(digest([inst["P"], inst["R"], rep])), **rep)
+        r_ = Recorder(b_, inst, script=scr)
+        r_.planner = planner
+        cur.update(b=b_, rec=r_, hv=[x / 2 ** inst["KB"] for x in inst["h"]])
+        return b_, r_
     try:
-        b = build.build_mdp(m, rng=rng, **rep)
-        rec = Recorder(b, m, script=script)
         L = m["L"] if m["L"] < 10 ** 6 else None
-        planner = LRTDP(heuristic=lambda s: hv[b.sidx(s)], bellman_error_margin=margin, iterations=iterations,
+        planner = LRTDP(heuristic=lambda s: cur["hv"][cur["b"].sidx(s)], bellman_error_margin=margin, iterations=iterations,
                         randomize_action_order=randomize, max_trial_length=L,
-                        event_listener_class=rec.Listener if listener else None, seed=seed)
-        rec.planner = planner
+                        event_listener_class=Listener if listener else None, seed=seed)
         with warnings.catch_warnings(record=True) as wlist:
             warnings.simplefilter("always")
+            if warm is not None:
+                b0, rec0 = enter(warm, None)
+                planner.plan_on(rec0)
+            wlist.clear()
+            b, rec = enter(m, script)
             res = planner.plan_on(rec)
+        hv = cur["hv"]
         out["capped"] = any("not converged" in str(w.message) for w in wlist)
     except ScriptDiverged as e:
         out["status"] = "diverged"
@@ -470,8 +490,8 @@ def real_run(m, rep, *, script=None, seed=0, randomize=False, iterations=3000, l
         d = res.policy.action_dist(b.slabel[s])
         pol[s] = {b.aidx(a): float(p) for a, p in d.items() if p > 0}
     out["pol"] = pol
-    # defaulted reads of the value table at the absorbing initial states (what initial_value reads)
-    out["V_read_abs_init"] = {s: float(res.V[b.slabel[s]]) for s in range(N) if m["abs"][s] and m["p0"][s] > 0}
+    # reads of the value table (stored or defaulted) at every absorbing state
+    out["V_read_abs"] = {s: float(res.V[b.slabel[s]]) for s in range(N) if m["abs"][s]}
     return out
 
 
@@ -576,6 +596,14 @@ def judge_run(ctx, m, run, jr, case, *, pyx=False, orc=None):
     for s, v in run["V"].items():
         if m["abs"][s] and v != 0:
             fail("C04:LRTDP.res.V:absorbing-state-stored-nonzero", f"stored V[{s}]={v} at an absorbing state")
+    # the value table read at every absorbing state that is in the initial support or was touched by the run
+    touched = set(run["V"]) | set(run["solved"]) | set(run["init_support"]) | {c["t"] - 1 for c in run["choices"]}
+    for sn in run["snaps"]:
+        touched |= set(sn["keys"]) | set(sn["solved"])
+    for s, v in run["V_read_abs"].items():
+        if s in touched and s not in run["V"] and v != 0:
+            fail("C04:LRTDP.res.V:absorbing-state-without-stored-value-reads-nonzero",
+                 f"res.V read at absorbing state {s} (no stored value; heuristic {hv[s]}) gives {v}, not 0")
     for s, row in run["Q"].items():
         if m["abs"][s] and any(q != 0 for q in row.values()):
             fail("C04:LRTDP.res.Q:absorbing-state-nonzero", f"Q[{s}]={row} at an absorbing state")
@@ -600,7 +628,7 @@ def judge_run(ctx, m, run, jr, case, *, pyx=False, orc=None):
     if abs(run["initial_value"] - ev0) > tol:
         fail("C04:LRTDP._tear_down_plan_on.initial_value:not-expectation-of-values-with-absorbing-states-worth-zero",
              f"initial_value={run['initial_value']} but sum p0*V over the initial states (absorbing ones worth 0) = {ev0}; "
-             f"absorbing initial states read {run['V_read_abs_init']}")
+             f"absorbing states read {run['V_read_abs']}")
     if not run["has_converged_attr"]:
         ctx.count("result_without_converged_attribute")
     return ok
@@ -685,12 +713,13 @@ def same_final(m, run, rec):
     return None
 
 
-def replay_history(m, rec, rep):
-    """Pipeline A: drive the real code through the history of one emitted terminal state."""
+def replay_history(m, rec, rep, warm=None):
+    """Pipeline A: drive the real code through the history of one emitted terminal state (optionally on a
+    planner object that has already planned on `warm`)."""
     script = rec["ch"]
     ntr = sum(1 for c in script if c["k"] == 0)
     if not m["rand"]:
-        return real_run(m, rep, script=script, seed=0, iterations=ntr + 3)
+        return real_run(m, rep, script=script, seed=0, iterations=(ntr + 3 if warm is None else max(ntr + 3, 200)), warm=warm)
     want = rec["ord"]
     last = None
     for seed in range(96):
@@ -740,20 +769,27 @@ def pipeline_mc(ctx, batch, reps, *, inject=None):
                 ctx.count(f"model_level_{k}_clause_broken")
             if t[k] == "unk":
                 ctx.skip(f"terminal {k} clause not computable in 30 bits (model level)")
-        run = replay_history(m, r, rep)
+        # planner-reuse histories: 2 in 10 replays on a planner that has planned the same MDP before, 3 in 10
+        # on one that has planned another member of the batch (same label kind, other absorbing set / dynamics)
+        pick = int(digest([m["tag"], r["ch"]]), 16) % 10
+        warm = None
+        if not m["rand"] and pick < 5:
+            warm = m if pick < 2 else batch[(r["iid"] * 7 + 3) % len(batch)]
+            ctx.count("planner_reuse_same_mdp" if warm is m else "planner_reuse_other_mdp")
+        run = replay_history(m, r, rep, warm)
         ctx.evaluations += 1
-        runs.append((m, r, run, rep))
+        runs.append((m, r, run, rep, warm))
     if inject is not None:
         inject(runs)
     # judge all real runs with one TLC run
     jrecs = []
-    for k, (m, r, run, rep) in enumerate(runs):
+    for k, (m, r, run, rep, warm) in enumerate(runs):
         if run["status"] == "ok" and not run["capped"]:
             jrecs.append(judge_record(m, run, f"j{k}", oracle=0))
     jby = run_tj(ctx, jrecs, "judge: exact evaluation of the policies returned by the replayed runs")
-    for k, (m, r, run, rep) in enumerate(runs):
+    for k, (m, r, run, rep, warm) in enumerate(runs):
         case = {"m": m, "rep": rep, "kind": "A", "script": r["ch"], "tag": f"{m['tag']}:{digest(r['ch'])}",
-                "seed": run.get("seed", 0)}
+                "seed": run.get("seed", 0), "warm": warm}
         if run["status"] == "diverged":
             if run.get("seed_search_failed") or m["rand"]:
                 ctx.skip("randomised action order: no seed among 96 reproduces the emitted orders")
@@ -785,8 +821,10 @@ def pipeline_free(ctx, cases):
     runs = []
     for k, c in enumerate(cases):
         m = c["m"]
-        run = real_run(m, c["rep"], seed=c["seed"], randomize=c["randomize"], iterations=c["iterations"])
+        run = real_run(m, c["rep"], seed=c["seed"], randomize=c["randomize"], iterations=c["iterations"], warm=c.get("warm"))
         run["iterations"] = c["iterations"]
+        if c.get("warm") is not None:
+            ctx.count("planner_reuse_same_mdp" if c["warm"] is m else "planner_reuse_other_mdp")
         ctx.evaluations += 1
         runs.append(run)
     recs = []
@@ -804,7 +842,8 @@ def pipeline_free(ctx, cases):
     for k, (c, run) in enumerate(zip(cases, runs)):
         m = c["m"]
         case = {"m": m, "rep": c["rep"], "kind": "B", "seed": c["seed"], "randomize": c["randomize"],
-                "iterations": c["iterations"], "exact": c["exact"], "tag": f"free{k}:{digest([m, c['seed']])}"}
+                "iterations": c["iterations"], "exact": c["exact"], "warm": c.get("warm"),
+                "tag": f"free{k}:{digest([m, c['seed']])}"}
         tr = by.get(f"t{k}")
         good = judge_run(ctx, m, run, by.get(f"j{k}"), case, pyx=(k % 7 == 0), orc=tr)
         if run["status"] != "ok" or run["capped"]:
@@ -865,6 +904,14 @@ def make_free_cases(rng, n, tier):
                 m["i0"][rng.choice(z)] = 1
         cases.append({"m": m, "rep": dict(REPS[rng.randrange(len(REPS))]), "seed": rng.randrange(10 ** 6),
                       "randomize": rng.random() < 0.5, "iterations": its, "exact": exact})
+    # planner-reuse histories: the planner object has planned the same MDP (15%) or another case's MDP (25%) before
+    for k, c in enumerate(cases):
+        x = rng.random()
+        if x < 0.15:
+            c["warm"] = c["m"]
+        elif x < 0.40:
+            o = cases[rng.randrange(len(cases))]["m"]
+            c["warm"] = o
     return cases
 
 
@@ -930,10 +977,12 @@ def replay(ctx, case):
     m = case["m"]
     if case["kind"] == "A":
         ntr = sum(1 for c in case["script"] if c["k"] == 0)
+        warm = case.get("warm")
         run = real_run(m, case["rep"], script=case["script"], seed=case.get("seed", 0), randomize=bool(m["rand"]),
-                       iterations=ntr + 3)
+                       iterations=(ntr + 3 if warm is None else max(ntr + 3, 200)), warm=warm)
     else:
-        run = real_run(m, case["rep"], seed=case["seed"], randomize=case["randomize"], iterations=case["iterations"])
+        run = real_run(m, case["rep"], seed=case["seed"], randomize=case["randomize"], iterations=case["iterations"],
+                       warm=case.get("warm"))
         run["iterations"] = case["iterations"]
     ctx.evaluations += 1
     if run["status"] == "diverged":
@@ -955,7 +1004,7 @@ def selftest(ctx):
     hit = {}
 
     def inject(runs):
-        for (m, r, run, rep) in runs:
+        for (m, r, run, rep, warm) in runs:
             if run["status"] == "ok" and r["pc"] == "done" and any(m["p0"][s] > 0 and not m["abs"][s] and s in run["V"] for s in range(m["N"])):
                 s = next(s for s in range(m["N"]) if m["p0"][s] > 0 and not m["abs"][s] and s in run["V"])
                 run["V"][s] += 8.0
